@@ -20,8 +20,12 @@ by default and which literal separators it uses.  `Ccp.Gen.Tables` is regenerate
 | `MACEUISearch.search_all_formats`: `re.search(rgx, …, re.I)` on `dash`, `colon`, `cisco`, `dash.replace('-', '')` | `searchAllFormats`, `macTexts` (`O.rx` is the case-insensitive search) |
 
 `<dynamic>` marks a pattern that is not a constant of the source (here: `self.word_delimiter`, the user's regex); the
-flags of such a call are still recorded.  `rxScan…` are *scan lists*: every regex call, literal `str` separator and
-`"lit" in …` test of the function, distinct, in order of first appearance, as `(callee, text, flags)`.
+flags of such a call are still recorded.  `rx…` are *scan sets* (`harness/rxscan.py`, `scan_closure`): for the named entry point and every helper of the same
+source file it reaches, every regex call (with flags; a compiled pattern's method is reported as the `re.` function
+with the pattern's text), literal `str` separator and `"lit" in …` test, as a sorted duplicate-free list of
+`(what, text, flags or detail)`.  So a regex call that is added to, or removed from, the modelled code breaks the
+obligation as well, while moving a test into a helper method, re-ordering tests, negating one (`!=` is reported as
+`==`, `not in` as `in`), hoisting a pattern into a compiled constant or renaming a constant / local variable does not.
 -/
 namespace Ccp.RxC18
 
@@ -30,46 +34,41 @@ source for which the model contains a hand-written scanner has the text that sca
 are named `regexes_as_modelled__<definition>`, so that a failing build names the constant that was edited.) -/
 theorem regexes_as_modelled :
     Gen.rxCliArgDefaults =
-      [("parent --syntax", "ios"),
-       ("parent --delimiter", ","),
-       ("parent --output", "raw_text"),
-       ("child --syntax", "ios"),
+      [("branch --delimiter", ","),
+       ("branch --output", "raw_text"),
+       ("branch --syntax", "ios"),
        ("child --delimiter", ","),
        ("child --output", "raw_text"),
-       ("branch --syntax", "ios"),
-       ("branch --delimiter", ","),
-       ("branch --output", "raw_text"),
+       ("child --syntax", "ios"),
        ("diff --method", "diff"),
        ("diff --syntax", "ios"),
        ("ipgrep --word_delimiter", "\\s+"),
        ("macgrep --regex", "."),
-       ("macgrep --word_delimiter", "\\s+")] ∧
+       ("macgrep --word_delimiter", "\\s+"),
+       ("parent --delimiter", ","),
+       ("parent --output", "raw_text"),
+       ("parent --syntax", "ios")] ∧
     Gen.rxCliGetattrDefaults =
-      [("syntax", "ios"),
+      [("method", "diff"),
        ("output", ""),
-       ("method", "diff"),
-       ("subnets", ""),
        ("regex", "."),
+       ("subnets", ""),
+       ("syntax", "ios"),
        ("word_delimiter", "\\s+")] ∧
-    Gen.rxScanCliIpgrep =
-      [("str.split", ",", ""),
-       ("re.split", "<dynamic>", ""),
+    Gen.rxCliIpgrep =
+      [("re.split", "<dynamic>", ""),
+       ("str.split", ",", ""),
        ("str.splitlines()", "", "")] ∧
-    Gen.rxScanCliIpLineMatches =
-      [("re.split", "<dynamic>", "")] ∧
-    Gen.rxScanCliMacgrep =
-      [("str.split", ",", ""),
-       ("re.split", "<dynamic>", ""),
+    Gen.rxCliMacgrep =
+      [("re.split", "<dynamic>", ""),
+       ("str.split", ",", ""),
        ("str.splitlines()", "", "")] ∧
-    Gen.rxScanCliMacLineMatches =
-      [("re.split", "<dynamic>", "")] ∧
-    Gen.rxScanCliMacSearchAllFormats =
+    Gen.rxCliMacSearch =
       [("re.search", "<dynamic>", "IGNORECASE"),
        ("str.replace", "'-',''", "")] := by
   refine ⟨?regexes_as_modelled__rxCliArgDefaults, ?regexes_as_modelled__rxCliGetattrDefaults,
-    ?regexes_as_modelled__rxScanCliIpgrep, ?regexes_as_modelled__rxScanCliIpLineMatches,
-    ?regexes_as_modelled__rxScanCliMacgrep, ?regexes_as_modelled__rxScanCliMacLineMatches,
-    ?regexes_as_modelled__rxScanCliMacSearchAllFormats⟩
+    ?regexes_as_modelled__rxCliIpgrep, ?regexes_as_modelled__rxCliMacgrep,
+    ?regexes_as_modelled__rxCliMacSearch⟩
   all_goals rfl
 
 end Ccp.RxC18
